@@ -141,7 +141,8 @@ def gen_map(rng, shape=None, small=((3, 3), (3, 5), (4, 4), (5, 6), (6, 5), (7, 
 def gen_median(rng, shape=None):
     ny, nx, disp, flags, conf, indicators = gen_map(rng, shape)
     fs = rng.choice([f for f in (1, 3, 3, 3, 5, 5, 7) if f <= min(ny, nx)])
-    return {"kind": "median", "ny": ny, "nx": nx, "fs": fs, "disp": enc_arr(disp), "flags": flags.tolist(),
+    return {"kind": "median", "ny": ny, "nx": nx, "fs": fs, "dtype": rng.choice(["float32", "float32", "float64"]),
+            "disp": enc_arr(disp), "flags": flags.tolist(),
             "conf": None if conf is None else enc_arr(np.array(conf)), "indicators": indicators,
             "via_machine": ny * nx < 400 and rng.random() < 0.3, "repeat": rng.choice([1, 1, 2])}
 
@@ -152,7 +153,8 @@ SIGMA_COLOR = [0.5, 2.0, 2.0, 10.0]
 
 def gen_bilateral(rng, shape=None):
     ny, nx, disp, flags, conf, indicators = gen_map(rng, shape, small=((3, 3), (4, 4), (4, 6), (5, 5), (6, 7), (7, 6), (8, 9), (20, 21)))
-    return {"kind": "bilateral", "ny": ny, "nx": nx, "sigma_space": rng.choice(SIGMA_SPACE),
+    return {"kind": "bilateral", "ny": ny, "nx": nx, "dtype": rng.choice(["float32", "float32", "float64"]),
+            "sigma_space": rng.choice(SIGMA_SPACE),
             "sigma_color": rng.choice(SIGMA_COLOR), "disp": enc_arr(disp), "flags": flags.tolist(),
             "conf": None if conf is None else enc_arr(np.array(conf)), "indicators": indicators,
             "via_machine": ny * nx < 400 and rng.random() < 0.3}
@@ -235,7 +237,7 @@ def frame_checks(report, case, before, after, kind, bands_may_change=()):
 
 def build_ds(case, disp, flags):
     conf = None if case.get("conf") is None else dec_arr(case["conf"])
-    return fl.make_disp(disp, flags, conf, case.get("indicators"))
+    return fl.make_disp(disp, flags, conf, case.get("indicators"), dtype=case.get("dtype", "float32"))
 
 
 def crop_spans(ny, nx, block, margin):
@@ -612,9 +614,12 @@ def run(ctx, report, status):
         for _ in range(ctx.n(2, 6)):
             check_case(ctx, report, gen_median(rng, shape))
             report.count("median_block_boundary")
-    for shape in [(4, 120), (120, 4), (5, 160)]:
-        for _ in range(ctx.n(2, 6)):
-            check_case(ctx, report, gen_bilateral(rng, shape))
+    for shape in [(4, 120), (120, 4), (5, 160), (60, 62)]:
+        for k in range(ctx.n(2, 6)):
+            case = gen_bilateral(rng, shape)
+            if k % 2 == 0:
+                case["dtype"] = "float64"  # the output buffer must never alias the map the windows are read from
+            check_case(ctx, report, case)
             report.count("bilateral_block_boundary")
     report.count("maps_with_invalid_band_covering_a_block", BAND_COUNTER[0])
 
